@@ -119,3 +119,50 @@ Definition sites : list site := [
   ("parser/step", "timer", ["TIMER_REQUIRES_TIME"],
    "bp.extension(Extensions::TIMER_REQUIRES_TIME)")
 ].
+(* what C02_gate_inventory pins: (class, file, fn, detail) - gate: the fn consults the flag [detail];
+   carry: the fn / item declares, stores, hands on or constructs a set without testing a flag; const: the
+   definition of the type and of each constant with its value.  [sites] above is informative detail. *)
+Definition key : Type := (string * string * string * string)%type.
+Definition keys : list key := [
+  ("carry", "analysis/event_consumer", "parse_events", "");
+  ("carry", "analysis/event_consumer", "struct RecipeCollector", "");
+  ("carry", "lib", "-", "");
+  ("carry", "lib", "CooklangParser::canonical", "");
+  ("carry", "lib", "CooklangParser::extended", "");
+  ("carry", "lib", "CooklangParser::extensions", "");
+  ("carry", "lib", "CooklangParser::new", "");
+  ("carry", "lib", "CooklangParser::parse_metadata_with_options", "");
+  ("carry", "lib", "CooklangParser::parse_with_options", "");
+  ("carry", "lib", "Extensions::default", "");
+  ("carry", "lib", "struct CooklangParser", "");
+  ("carry", "parser/block_parser", "BlockParser::extension", "");
+  ("carry", "parser/block_parser", "BlockParser::new", "");
+  ("carry", "parser/block_parser", "struct BlockParser", "");
+  ("carry", "parser/mod", "PullParser::new", "");
+  ("carry", "parser/mod", "PullParser::next_block", "");
+  ("carry", "parser/mod", "PullParser::next_metadata_block", "");
+  ("carry", "parser/mod", "struct PullParser", "");
+  ("const", "lib", "bitflags!", "const ADVANCED_UNITS = 1 << 5");
+  ("const", "lib", "bitflags!", "const COMPAT = Self::COMPONENT_MODIFIERS.bits() | Self::COMPONENT_ALIAS.bits() | Self::ADVANCED_UNITS.bits() | Self::MODES.bits() | Self::INLINE_QUANTITIES.bits() | Self::RANGE_VALUES.bits() | Self::INTERMEDIATE_PREPARATIONS.bits()");
+  ("const", "lib", "bitflags!", "const COMPONENT_ALIAS = 1 << 3");
+  ("const", "lib", "bitflags!", "const COMPONENT_MODIFIERS = 1 << 1");
+  ("const", "lib", "bitflags!", "const INLINE_QUANTITIES = 1 << 7");
+  ("const", "lib", "bitflags!", "const INTERMEDIATE_PREPARATIONS = 1 << 11 | Self::COMPONENT_MODIFIERS.bits()");
+  ("const", "lib", "bitflags!", "const MODES = 1 << 6");
+  ("const", "lib", "bitflags!", "const RANGE_VALUES = 1 << 9");
+  ("const", "lib", "bitflags!", "const TIMER_REQUIRES_TIME = 1 << 10");
+  ("const", "lib", "bitflags!", "struct Extensions: u32");
+  ("gate", "analysis/event_consumer", "RecipeCollector::in_step", "INLINE_QUANTITIES");
+  ("gate", "analysis/event_consumer", "RecipeCollector::ingredient", "ADVANCED_UNITS");
+  ("gate", "analysis/event_consumer", "RecipeCollector::metadata", "MODES");
+  ("gate", "analysis/event_consumer", "RecipeCollector::timer", "ADVANCED_UNITS");
+  ("gate", "parser/mod", "parse_block", "MODES");
+  ("gate", "parser/quantity", "parse_quantity", "ADVANCED_UNITS");
+  ("gate", "parser/quantity", "range_value", "RANGE_VALUES");
+  ("gate", "parser/step", "check_alias", "COMPONENT_ALIAS");
+  ("gate", "parser/step", "modifiers", "COMPONENT_MODIFIERS");
+  ("gate", "parser/step", "modifiers", "INTERMEDIATE_PREPARATIONS");
+  ("gate", "parser/step", "parse_alias", "COMPONENT_ALIAS");
+  ("gate", "parser/step", "parse_modifiers", "INTERMEDIATE_PREPARATIONS");
+  ("gate", "parser/step", "timer", "TIMER_REQUIRES_TIME")
+].
